@@ -69,12 +69,15 @@ def classes():
     return _cls, _ref
 
 
-def ts_oracle(chk, us, offset_min):
+def ts_oracle(chk, us, offset_min, offset_us=0):
     from google.protobuf import timestamp_pb2
     C, R = classes()
-    tz = timezone(timedelta(minutes=offset_min))
+    # (a utcoffset need not be a whole number of minutes, nor of seconds: offset_us adds a sub-second part — D52)
+    tz = timezone(timedelta(minutes=offset_min, microseconds=offset_us))
     dt = (EPOCH + timedelta(microseconds=us)).astimezone(tz)
     inp = {"kind": "timestamp", "us": us, "utc_offset_min": offset_min}
+    if offset_us:
+        inp["utc_offset_us"] = offset_us
     try:
         b = bytes(C(t=dt))
     except Exception as e:
@@ -300,6 +303,11 @@ def run(chk, drv):
         chk.count("ts_" + ("epoch" if us == 0 else "pre_epoch" if us < 0 else "post_epoch"))
         chk.count("ts_frac_" + ("none" if us % 10**6 == 0 else "ms" if us % 1000 == 0 else "us"))
         ts_oracle(chk, us, off)
+        # one case in sixteen again under an offset with a sub-second part (legal for datetime.timezone)
+        if us % 16 == 0 and abs(off) < 1000 and max(TS_MIN, lo) + 2 * 10**6 <= us <= min(TS_MAX, hi) - 2 * 10**6:
+            sub = rng.choice([1, 250000, 500000, 999999, -1, -250000])
+            chk.count("ts_subsecond_offset")
+            ts_oracle(chk, us, off, sub)
     for us in sampled(dvals):
         chk.case("d %d" % us, us != 0, {"duration_us": us})
         chk.count("dur_" + ("zero" if us == 0 else "neg" if us < 0 else "pos"))
@@ -312,7 +320,7 @@ def replay_known(chk, entry):
     if w["kind"] == "duration":
         dur_oracle(c, w["us"])
     else:
-        ts_oracle(c, w["us"], w.get("utc_offset_min", 0))
+        ts_oracle(c, w["us"], w.get("utc_offset_min", 0), w.get("utc_offset_us", 0))
     return bool(c.oracle_failures)
 
 
@@ -344,5 +352,5 @@ def replay(chk, rp):
     if inp["kind"] == "duration":
         dur_oracle(c, inp["us"])
     else:
-        ts_oracle(c, inp["us"], inp.get("utc_offset_min", 0))
+        ts_oracle(c, inp["us"], inp.get("utc_offset_min", 0), inp.get("utc_offset_us", 0))
     return bool(c.oracle_failures)
